@@ -29,7 +29,13 @@ var weights = map[string]map[string]int{
 // slim drops what the driver of `prop` does not read, to keep the stream small
 func slim(prop string, rec map[string]any) {
 	out := rec["out"].(map[string]any)
-	kind, _ := rec["in"].(map[string]any)["op"].(map[string]any)["kind"].(string)
+	var kind string
+	switch o := rec["in"].(map[string]any)["op"].(type) {
+	case map[string]any:
+		kind, _ = o["kind"].(string)
+	case Op:
+		kind = o.Kind
+	}
 	if !relevant[prop][kind] {
 		rec["k"] = "evolve"
 		rec["triv"] = true
